@@ -13,6 +13,17 @@ spec -> code: every configuration TLC reaches is printed and built as a real Con
               the defining section of every resolved value is observable.
 code -> spec: seeded random configurations (up to 5 names, 3 sources, 3 ordinary keys, longer
               inherit lists, self-inherit chains, cycles, missing targets).
+live        : ConfigInherit_Live — ONE manager over time: histories of collapse(name) /
+              add_config_source(source).  The specification of a read is the fresh collapse of the
+              sources present at that moment, nothing else; the modelled design (cache of collapsed
+              sections, dropped when a source is added) is checked against it (CacheCoherent,
+              ReadIsFresh) and the design that keeps the cache is rejected.  TLC enumerates ALL
+              histories (2 names, every source with inherit lists <= 1, <= 2 sources, 3 operations
+              quick / 4 thorough); those of the form read..add..read are replayed on a real manager,
+              plus seeded random histories (up to 4 names / 4 sources / 10 operations).
+              ConfigInherit_LiveTrace walks each history, accumulating the sources, and judges every
+              read with the same JudgeRead; clauses of reads after an add carry the prefix AfterAdd_.
+              If add_config_source itself raises, the rest of that history is not judged.
 ConfigInherit_Trace: Error_not_reported, Unexpected_error, Unexpected_exception, Own_value_lost,
 Not_nearest ("_Unspecified" marks inputs the specification leaves open; they are only counted).
 
@@ -26,11 +37,10 @@ from pylib.common import rng, use_repo
 ORD_KEYS = ["k1", "k2", "k3"]
 
 
-def build_and_collapse(mods, defs, root, keys):
-    """defs: [{name, src, inh, keys}] -> (outcome, vals, exc)."""
+def make_source(mods, defs):
+    """defs of ONE source: [{name, src, inh, keys}] -> {name: ConfigSection}."""
     central, basics, errors, configurable = mods
-    nsrc = max(d["src"] for d in defs)
-    sources = [dict() for _ in range(nsrc)]
+    out = {}
     for d in defs:
         sec = {}
         tag = f"{d['name']}@{d['src']}"
@@ -46,9 +56,14 @@ def build_and_collapse(mods, defs, root, keys):
                 sec["class"] = thing
             else:
                 sec[k] = tag
-        sources[d["src"] - 1][d["name"]] = basics.HardCodedConfigSection(sec)
+        out[d["name"]] = basics.HardCodedConfigSection(sec)
+    return out
+
+
+def collapse(mods, manager, root, keys):
+    """collapse_named_section(root) on a manager -> (outcome, vals, exc)."""
+    central, basics, errors, configurable = mods
     try:
-        manager = central.ConfigManager(sources)
         col = manager.collapse_named_section(root)
     except errors.ConfigurationError as e:
         return "error", [], str(e).replace("\n", " | ")
@@ -65,6 +80,94 @@ def build_and_collapse(mods, defs, root, keys):
         else:
             vals.append(dict(k=k, name="-", src=0))
     return "values", vals, ""
+
+
+def build_and_collapse(mods, defs, root, keys):
+    """defs: [{name, src, inh, keys}] -> (outcome, vals, exc)."""
+    central, basics, errors, configurable = mods
+    nsrc = max(d["src"] for d in defs)
+    sources = [make_source(mods, [d for d in defs if d["src"] == s]) for s in range(1, nsrc + 1)]
+    try:
+        manager = central.ConfigManager(sources)
+    except errors.ConfigurationError as e:
+        return "error", [], str(e).replace("\n", " | ")
+    except Exception as e:  # judged (Unexpected_exception)
+        return "other", [], f"{type(e).__name__}: {e}"
+    return collapse(mods, manager, root, keys)
+
+
+LIVE_BLANK = dict(ev="", root="-", defs=[], raised=False, outcome="-", vals=[])
+
+
+def run_live(mods, ops, keys):
+    """One live manager.  ops: [("init"|"add", defs) | ("read", name)] -> (events without tid/i, exceptions)."""
+    central, basics, errors, configurable = mods
+    evs, excs = [], []
+    manager = None
+    for op, arg in ops:
+        e = dict(LIVE_BLANK)
+        exc = ""
+        if op in ("init", "add"):
+            e.update(ev=op, defs=[dict(name=d["name"], src=d["src"], inh=list(d["inh"]), keys=list(d["keys"])) for d in arg])
+            try:
+                if op == "init":
+                    manager = central.ConfigManager([make_source(mods, arg)])
+                else:
+                    manager.add_config_source(make_source(mods, arg))
+            except Exception as ex:  # the rest of the history is not judged
+                e["raised"], exc = True, f"{type(ex).__name__}: {ex}".replace("\n", " | ")
+                if op == "init":
+                    raise tlc.MachineryError(f"cannot create a manager over {arg}: {exc}")
+        else:
+            outcome, vals, exc = collapse(mods, manager, arg, keys)
+            e.update(ev="read", root=arg, outcome=outcome, vals=vals)
+        evs.append(e)
+        excs.append(exc)
+    return evs, excs
+
+
+def ops_of_hist(hist):
+    """HIST printed by ConfigInherit_Live -> ops.  The model observes the ordinary key k1; every section gets
+    its own class so that every name can be collapsed (and the class is always the section's own)."""
+    ops, src = [], 0
+    for h in hist:
+        if h["op"] == "read":
+            ops.append(("read", h["name"]))
+            continue
+        src += 1
+        defs = []
+        for name, inh, keys in h["defs"]:
+            defs.append(dict(name=name, src=src, inh=list(inh), keys=["class"] + list(keys)))
+        defs.sort(key=lambda d: d["name"])
+        ops.append((h["op"], defs))
+    return ops
+
+
+def random_history(r_):
+    names = ["a", "b", "c", "d"][: r_.randint(2, 4)]
+    allkeys = ["class"] + ORD_KEYS
+
+    def source(idx, first):
+        defs = []
+        for n in names:
+            if r_.random() < (0.8 if first else 0.45):
+                inh = []
+                for _ in range(r_.choice([0, 1, 1, 2])):
+                    inh.append(r_.choice(names if r_.random() < 0.93 else ["zz"]))
+                defs.append(dict(name=n, src=idx, inh=inh, keys=sorted(k for k in allkeys if r_.random() < (0.5 if first else 0.35))))
+        if not defs:
+            defs.append(dict(name=r_.choice(names), src=idx, inh=[], keys=["k1"]))
+        return defs
+
+    ops, nsrc = [("init", source(1, True))], 1
+    for _ in range(r_.randint(3, 9)):
+        if nsrc < 4 and r_.random() < 0.3:
+            nsrc += 1
+            ops.append(("add", source(nsrc, False)))
+        else:
+            ops.append(("read", r_.choice(names)))
+    ops.append(("read", r_.choice(names)))
+    return ops
 
 
 def random_cfg(r_):
@@ -109,13 +212,25 @@ def run(ck):
     mods = (central, basics, errors, configurable)
     ck.rule = ("one collapse of the root section on a real ConfigManager per configuration; configurations enumerated by "
                "TLC (every reachable state of ConfigInherit_MC) plus seeded random ones; non-trivial = distinct "
-               "configuration that the specification judges (not '_Unspecified') and whose root inherits something")
+               "configuration that the specification judges (not '_Unspecified') and whose root inherits something; "
+               "plus histories on one live manager (collapse / add_config_source), non-trivial = history with a judged "
+               "read after a source was added")
     ck.assumptions = [
         "values are identified by the definition that supplies them (one callable / one string per definition)",
         "sources are plain dicts of HardCodedConfigSection; later sources override earlier ones",
         "non-tree, non-cyclic graphs and class-less configurations are left open by the property",
     ]
     events, exs = [], []
+    live_events, live_runs = [], []  # live_runs[tid] = (ops, keys, excs)
+
+    def execute_live(ops, keys):
+        evs, excs = run_live(mods, ops, keys)
+        tid = len(live_runs)
+        live_runs.append((ops, keys, excs))
+        for i, e in enumerate(evs):
+            e.update(tid=tid, i=i)
+            live_events.append(e)
+        ck.count()
 
     def execute(defs, root, keys):
         outcome, vals, exc = build_and_collapse(mods, defs, root, keys)
@@ -127,7 +242,10 @@ def run(ck):
 
     if ck.replay_case:
         d = ck.replay_case["detail"]
-        execute(d["defs"], d["root"], d["keys"])
+        if "history" in d:
+            execute_live([(op, arg) for op, arg in d["history"]], d["keys"])
+        else:
+            execute(d["defs"], d["root"], d["keys"])
     else:
         # 1. the design (larger bound, no replay)
         def cfg(md, me, mi, ks, emit):
@@ -159,9 +277,63 @@ def run(ck):
         ck.sample(dict(direction="spec->code", defs=events[len(events) // 2]["defs"], outcome=events[len(events) // 2]["outcome"]))
         # 3. code -> spec
         r_ = rng(43)
-        for _ in range(ck.pick(2000, 50000)):
+        for _ in range(ck.pick(1500, 50000)):
             execute(random_cfg(r_), "a", ["class"] + ORD_KEYS)
         ck.sample(dict(direction="code->spec", defs=events[-1]["defs"], outcome=events[-1]["outcome"], vals=events[-1]["vals"]))
+        # 4. one LIVE manager: collapse / add_config_source / collapse ...
+        def live_cfg(ops_, clear, emit):
+            return (f'SPECIFICATION Spec\nCONSTANTS\n Names = {{"a", "b"}}\n KeySets <- KSk1\n MaxSources = 2\n MaxOps = {ops_}\n'
+                    f" ClearOnAdd = {'TRUE' if clear else 'FALSE'}\n EmitHist = {'TRUE' if emit else 'FALSE'}\n"
+                    "INVARIANT CacheCoherent\nINVARIANT ReadIsFresh\nINVARIANT Emit\n")
+
+        if not ck.quick:
+            bad = ck.mc("ConfigInherit_Live", cfg_text=live_cfg(3, False, False), workers=1, timeout=300, expect_ok=False,
+                        label="MC:ConfigInherit_Live cache kept across add (must violate)")
+            if bad.violated != "CacheCoherent":
+                raise tlc.MachineryError(f"the cache-keeping design was not rejected as expected: {bad.violated}")
+        lo_ = ck.pick(3, 4)
+        res = ck.mc("ConfigInherit_Live", cfg_text=live_cfg(lo_, True, True), workers=1, timeout=ck.pick(300, 1800),
+                    label=f"MC+Histories:ConfigInherit_Live MaxOps={lo_}")
+        hists = [p[1] for p in res.tagged("HIST")]
+        if len(hists) < 5000:
+            raise tlc.MachineryError(f"only {len(hists)} histories enumerated\n{res.out[-1500:]}")
+        ck.extra["live_histories_enumerated"] = len(hists)
+        if ck.quick:  # a seeded third of them; thorough replays all
+            hists = r_.sample(hists, 3000)
+        ck.extra["live_histories_replayed"] = len(hists)
+        for h in hists:
+            execute_live(ops_of_hist(h), ["class", "k1"])
+        ck.sample(dict(direction="spec->code (live manager)", history=ops_of_hist(hists[len(hists) // 2])))
+        for _ in range(ck.pick(1000, 20000)):
+            execute_live(random_history(r_), ["class"] + ORD_KEYS)
+        ck.sample(dict(direction="code->spec (live manager)", history=live_runs[-1][0]))
+
+    # ---- live histories: every read against the fresh collapse of the sources present at that moment ----
+    lverdicts, lo = [], 0
+    while lo < len(live_events):  # chunks end on history boundaries
+        hi = min(len(live_events), lo + 60000)
+        while hi < len(live_events) and live_events[hi]["i"] != 0:
+            hi += 1
+        lverdicts += ck.trace("ConfigInherit_LiveTrace", live_events[lo:hi], label=f"Trace:ConfigInherit_LiveTrace[{lo}:{hi}]", timeout=1500)
+        lo = hi
+    open_reads = {(v["tid"], v["i"]) for v in lverdicts if v["clause"] == "_Unspecified"}
+    ck.extra["unspecified_live_reads"] = len(open_reads)
+    seen_add = {}
+    for e in live_events:
+        if e["ev"] == "add" and not e["raised"]:
+            seen_add[e["tid"]] = True
+        elif e["ev"] == "read" and seen_add.get(e["tid"]) and (e["tid"], e["i"]) not in open_reads:
+            ck.nontriv(("live", e["tid"]))
+    for v in lverdicts:
+        if v["clause"] == "_Unspecified":
+            continue
+        ops, keys, excs = live_runs[v["tid"]]
+        if v["clause"] in ("OutsideDomain", "UnknownEvent"):
+            raise tlc.MachineryError(f"malformed live history generated: {ops}")
+        upto = ops[: v["i"] + 1]
+        ck.violation(v["clause"], dict(history=[[op, arg] for op, arg in upto], keys=keys, read=upto[-1][1],
+                                       reads_before=sum(1 for op, _ in upto[:-1] if op == "read"),
+                                       sources=sum(1 for op, _ in upto if op != "read"), exc=excs[v["i"]]))
 
     verdicts = []
     for lo in range(0, len(events), 50000):
